@@ -7,6 +7,7 @@ are about the hand-written reference `Ref.inSphereDet`; the translator output
 by `MVoro.Gen.InSphereObl`.
 -/
 import MVoro.Model.InSphere
+import MVoro.Proofs.Orientation
 import Mathlib.Tactic.Ring
 import Mathlib.Tactic.LinearCombination
 import Mathlib.Tactic.Linarith
@@ -40,5 +41,20 @@ theorem insphere_power [CommRing α] (a b c d v o : I3 α)
         (b.c2 - a.c2) (d.c2 - a.c2) (v.c2 - a.c2)) * hc
     - (det3 (b.c0 - a.c0) (c.c0 - a.c0) (v.c0 - a.c0) (b.c1 - a.c1) (c.c1 - a.c1) (v.c1 - a.c1)
         (b.c2 - a.c2) (c.c2 - a.c2) (v.c2 - a.c2)) * hd
+
+/-- **T10.5a** three-term Grassmann–Plücker relation between the two determinants the code evaluates. -/
+theorem grassmann_pluecker : type_of% @Orientation.grassmann_pluecker := @Orientation.grassmann_pluecker
+
+/-- **T10.5b** the dual triple `(cur, next, p)` of a vertex created by `clip_by_plane` is positively oriented — the
+precondition under which the sign of the in-sphere determinant means "inside" — whenever the removed vertex `(a, b, c)`
+was positively oriented and strictly clipped, the vertex `(b, a, d)` across the edge was positively oriented and kept, and
+the old cell was locally Delaunay at that edge.  For all integers (any ordered commutative ring). -/
+theorem new_triple_oriented : type_of% @Orientation.new_triple_oriented := @Orientation.new_triple_oriented
+
+/-- **T10.5c** and the created vertex is again locally Delaunay against the kept vertex across the inherited edge. -/
+theorem new_vertex_delaunay_vs_kept : type_of% @Orientation.new_vertex_delaunay_vs_kept := @Orientation.new_vertex_delaunay_vs_kept
+
+/- T10.5 over a whole construction (`Star.reachable_from_init_good`, `Star.exact_decision_iff`) is stated in `Props/C01`
+(T01.4d/e), which imports this file. -/
 
 end MVoro.C10
